@@ -85,6 +85,12 @@ def run(ctx) -> None:
         ctx.check(len(inits) == 1 and len(perfs) == 1, "C20.L3.same-engine-once", "main",
                   f"{len(inits)} MasterOfPuppets / {len(perfs)} perform_matching calls",
                   "main builds one MasterOfPuppets and calls perform_matching exactly once")
+        cl_calls = p.run.user.get("conf_logger", [])
+        want = {"debug": "args.debug", "info": "args.info", "enable_log_to_file": "args.enable_logging_to_file",
+                "enable_log_to_terminal": "args.enable_logging_to_terminal"}
+        got = {k: Ic.expr_of(v) for k, v in (cl_calls[0].items() if cl_calls else [])}
+        ctx.check(len(cl_calls) == 1 and got == want, "C20.L4.logger-configured-from-options", "start_configurations",
+                  f"configure_logger({got})"[:160], "the logger is configured once, from the logging options as given")
         if len(inits) != 1:
             continue
         a, k = inits[0]
@@ -156,6 +162,38 @@ def run(ctx) -> None:
         ctx.check(ok, "C20.L4.finalize-reached", f"perform_matching[{s.cfg['file_type']},{s.cfg['search_mode']}]",
                   f"finalize calls={len(fins)} scans={len(scans)}",
                   "the RESULT line is produced exactly once, after the scan and after every hit was reported")
+    # L7: the logged RESULT line and the boolean the API returns are the same verdict on every path
+    for s in match_scenarios(Im, return_modes=("bool",), configs=({},)):
+        if s.path.kind != "return":
+            continue
+        texts = [e.args[0].text().strip() for e in s.path.events if e.kind == "call_unknown" and e.target.endswith(".info")
+                 and e.args and isinstance(e.args[0], Str) and e.args[0].is_concrete() and e.args[0].text().strip().startswith("RESULT")]
+        v = s.path.value
+        ok = len(texts) == 1 and isinstance(v, BoolV) and (texts[0] == "RESULT: Pattern found") == v.v and \
+            texts[0] in ("RESULT: Pattern found", "RESULT: Pattern not found")
+        ctx.check(ok, "C20.L7.result-line-equals-returned-verdict", f"perform_matching[{s.cfg['file_type']},{s.cfg['search_mode']},only_addr={s.cfg['only_addr']}]",
+                  f"logged {texts} but returns {Im.expr_of(v)}"[:200],
+                  "the RESULT line says 'found' exactly on the paths that return True")
+    # L6: main() always asks for the boolean result, the API user for the list: scan and reported hits must be the same
+    # in both return modes, path for path (what is logged under bool mode is what the list mode returns)
+    import re as _re
+
+    def _sig(s):
+        calls = tuple((e.name, tuple(sorted((k, _re.sub(r"#\d+", "", Im.expr_of(v))) for k, v in e.kwargs.items())), len(e.args))
+                      for e in s.path.events if e.kind == "extern_call" and e.name.startswith("regex."))
+        reps = tuple(_re.sub(r"#\d+", "", Im.expr_of([v for k, v in e.frame.locals.items() if k != "self"][0]))
+                     for e in s.path.events if e.kind == "enter" and e.func == "MatchedObserver.regex_matched")
+        conds = tuple(sorted(_re.sub(r"#\d+", "", l) for l in s.path.cond_labels()))
+        return (s.path.kind, calls, reps, conds)
+    by = {}
+    for s in match_scenarios(Im, return_modes=("bool", "matched_addrs_list"), configs=({},)):
+        by.setdefault((s.cfg["file_type"], s.cfg["search_mode"], s.cfg["only_addr"]), {}).setdefault(s.cfg["return_mode"], set()).add(_sig(s))
+    for key, d in sorted(by.items()):
+        a, b = d.get("bool", set()), d.get("matched_addrs_list", set())
+        diff = sorted(a ^ b, key=str)
+        ctx.check(not diff and bool(a), "C20.L6.hits-independent-of-return-mode", f"perform_matching[{key[0]},{key[1]},only_addr={key[2]}]",
+                  (("only under bool: " if diff and diff[0] in a else "only under list: ") + str(diff[0][2:]) if diff else "")[:260],
+                  "the boolean-mode operation (what main() runs) searches and reports exactly like the list-mode operation")
     # INFO level by default
     cl = ctx.p.find_func("configure_logger")
     def thunk2(I):
